@@ -29,7 +29,12 @@ type c13StructNode struct {
 
 type c13StringerNode struct{ name string }
 
-func (s *c13StringerNode) String() string { return "stringer-" + s.name }
+func (s *c13StringerNode) String() string {
+	if s.name == "\x00empty" {
+		return "" // a Stringer whose String() is empty (a node configured without an address)
+	}
+	return "stringer-" + s.name
+}
 
 // c13Repr: the documented textual representation of the node kinds the monitor uses.
 func c13Repr(n any) string {
@@ -121,6 +126,14 @@ func c13MakeNodes(r interface{ Intn(int) int }, n int, salt int) []any {
 			nodes[i] = c13StructNode{Host: fmt.Sprintf("h%d-%d", salt, i), Port: 1000 + r.Intn(5000)}
 		default:
 			nodes[i] = &c13StringerNode{name: fmt.Sprintf("%d-%d-%d", salt, i, r.Intn(1000))}
+		}
+	}
+	// a node whose representation is the empty string is a node like any other
+	if n >= 3 && r.Intn(6) == 0 {
+		if r.Intn(2) == 0 {
+			nodes[0] = ""
+		} else {
+			nodes[0] = &c13StringerNode{name: "\x00empty"}
 		}
 	}
 	// node identity is exact: in a third of the sets the last two nodes differ only in letter case
